@@ -4,7 +4,7 @@ V=${VERIF_HOME:-/verif}
 OUT=$(cd "$(dirname "$6")" && pwd)/$(basename "$6")
 D=$(mktemp -d $V/run/pgen.XXXX)
 printf 'SPECIFICATION Spec\nCONSTANTS\n  Max = %s\n  Cap = %s\n  Depth = %s\n  MaxConns = 6\n  Gen = TRUE\nINVARIANTS\n  Emit\n  I_RegistryOK\n' "$4" "$5" "$2" > $D/gen.cfg
-cd $V/spec && timeout 600 java -Xmx4g -Xss512m -cp /opt/veriftools/tla/tla2tools.jar:/opt/veriftools/tla/CommunityModules-deps.jar tlc2.TLC -noGenerateSpecTE -deadlock -workers 1 -simulate num=$1 -depth $(( $2 * 3 )) -seed $3 -metadir $D/md -config $D/gen.cfg MC_Poll.tla > $D/out.txt 2>&1
+cd $V/spec && timeout 600 java -Xmx4g -Xss512m -Djava.io.tmpdir=$D -cp /opt/veriftools/tla/tla2tools.jar:/opt/veriftools/tla/CommunityModules-deps.jar tlc2.TLC -noGenerateSpecTE -deadlock -workers 1 -simulate num=$1 -depth $(( $2 * 3 )) -seed $3 -metadir $D/md -config $D/gen.cfg MC_Poll.tla > $D/out.txt 2>&1
 if grep -q "^Error" $D/out.txt; then grep -A5 "^Error" $D/out.txt | head -20 >&2; exit 2; fi
 grep POLLGEN $D/out.txt | python3 -c "
 import sys,re,json
